@@ -219,5 +219,20 @@ CLAIMED['C20'] = dict(
     technique="TLA+ zero-row lemmas and zero-row instances of the algorithm models checked by TLC; TLC-emitted expectations "
               "replayed on the whole operator catalogue",
     design="3/C20")
+CLAIMED['C13'] = dict(
+    text="Select.tla defines every selector over ragged tables of abstract cells (a missing cell reads as None; comparison and "
+         "range selectors through Ordering.tla; in/notin, none/notnone, true/false, is, rowlenselect; complement as XOR) and "
+         "ISlice = itertools.islice with head/tail/skip as instances. TLC evaluates the laws on every small table x field x "
+         "reference value: select and its complement partition the input in order, lt/ge, le/gt, eq/ne, none/notnone are "
+         "exact complements, head(k) + the rest reassemble the table. Every generated case is replayed on ~60 calls of the "
+         "real select*/rowlenselect/select(lambda|expression)/biselect/facet/search functions with complement on and off "
+         "under value profiles (mixed types, equal representatives, tuples, text), every slice triple on rowslice/head/tail/"
+         "skip (ISlice cross-checked against itertools.islice itself); Hypothesis columns of concrete values are validated "
+         "by SelectTrace against the C04 ordering.",
+    note="Cell alphabet has no falsy value besides None; search on text cells only; tables <= 2 (quick) / 3 (thorough) ragged "
+         "rows, traces <= 15 rows.",
+    technique="TLA+ definitions + partition/complement laws evaluated by TLC; spec->code case replay; code->spec trace "
+              "validation by TLC",
+    design="3/C13")
 
 NOT_APPLICABLE = {}
